@@ -1,2 +1,3 @@
 -- root of the library: every property module (and through them models, generated files, lemmas)
 import SimuVerif.Properties.C05
+import SimuVerif.Properties.C20
